@@ -26,6 +26,12 @@ type Standin struct {
 }
 
 var propStandins = map[string][]Standin{
+	"C15": {{
+		Name: "cache-ops", Pkg: "internal/index/converters", TestFile: "cachefile_standin_test.go", TestName: "TestC15Standin", OutEnv: "C15_OUT",
+		EnvQuick: []string{"C15_LEN=3", "C15_RANDOM=3000"}, EnvThorough: []string{"C15_LEN=4", "C15_RANDOM=30000"},
+		Bound:   "the cache file as a whole (record encoding with varbytes/strings, load-time scan, compaction, invalidation, reset): every sequence of up to 3 (quick) / 4 (thorough) operations from {store(id in 1..3, one of 4 chunk lists incl. server-first, same-time chunks, content types, a 200 byte chunk, time going backwards), invalidate(id), reset, reopen} plus 3000 / 30000 seeded random sequences of up to 4 more operations, checked after every step against a map model through the real functions on a real file; every cut point inside the last record of a 3-record file; two inputs outside the chunk-list type invariant (empty chunk, sub-microsecond times)",
+		Timeout: 20 * time.Minute,
+	}},
 	"C18": {{
 		Name: "regex-walk", Pkg: "internal/tools/regexAnalysis", TestFile: "regexanalysis_standin_test.go", TestName: "TestC18Standin", OutEnv: "C18_OUT",
 		EnvQuick: []string{"C18_DEPTH=1", "C18_MAXLEN=5"}, EnvThorough: []string{"C18_DEPTH=2", "C18_MAXLEN=6"},
@@ -83,13 +89,25 @@ func runStandin(sd Standin, tier string) standinResult {
 		Evaluations int                 `json:"evaluations"`
 		Nontrivial  int                 `json:"nontrivial"`
 		Samples     any                 `json:"samples"`
-		Failures    []map[string]string `json:"failures"`
+		Failures    []map[string]any `json:"failures"`
 	}
 	if jerr := json.Unmarshal(data, &parsed); jerr != nil {
 		res.Err = "bad stand-in output: " + jerr.Error()
 		return res
 	}
-	res.Evaluations, res.Nontrivial, res.Samples, res.Failures = parsed.Evaluations, parsed.Nontrivial, parsed.Samples, parsed.Failures
+	res.Evaluations, res.Nontrivial, res.Samples = parsed.Evaluations, parsed.Nontrivial, parsed.Samples
+	for _, f := range parsed.Failures {
+		m := map[string]string{}
+		for k, v := range f {
+			if sv, ok := v.(string); ok {
+				m[k] = sv
+			} else {
+				b, _ := json.Marshal(v)
+				m[k] = string(b)
+			}
+		}
+		res.Failures = append(res.Failures, m)
+	}
 	if err != nil && len(parsed.Failures) == 0 {
 		res.Err = "stand-in test failed: " + truncate(strings.TrimSpace(string(b)), 2000)
 	}
